@@ -1,7 +1,7 @@
 /- helper lemmas and the proofs behind WD.Props.C17 -/
 import WD.Model.DelayQueue
 import WD.Spec.QueueSpec
-namespace WD.Proofs
+namespace WD.ProofsDQ
 open WD.DQ
 
 /-! ### projections of the ghost history -/
@@ -750,4 +750,461 @@ theorem reach_inv (delay : Nat) (scripts : List (List Op)) (as : List Action) (h
     Inv delay (run (init delay scripts) as) :=
   run_inv (init_inv delay scripts h) as
 
-end WD.Proofs
+theorem InvH.gots_sub_live {D h q} (I : InvH D h q) : (gots h).Sublist (live h) := by
+  rw [I.acc]; exact List.sublist_append_left _ _
+
+theorem accounting (delay : Nat) (scripts : List (List Op)) (as : List Action) (h : distinctPuts scripts) :
+    live (run (init delay scripts) as).hist =
+      gots (run (init delay scripts) as).hist ++ (run (init delay scripts) as).queue.map Entry.elem :=
+  (reach_inv delay scripts as h).H.acc
+
+theorem exactly_once (delay : Nat) (scripts : List (List Op)) (as : List Action) (h : distinctPuts scripts) :
+    (gots (run (init delay scripts) as).hist ++ removeds (run (init delay scripts) as).hist).Nodup := by
+  have H := (reach_inv delay scripts as h).H
+  refine List.nodup_append.2 ⟨List.Nodup.sublist H.gots_sub_live H.live_nodup, H.remNodup, ?_⟩
+  intro a ha b hb hab
+  subst hab
+  exact not_removed_of_live (H.gots_sub_live.subset ha) hb
+
+theorem fifo (delay : Nat) (scripts : List (List Op)) (as : List Action) (h : distinctPuts scripts) :
+    (gots (run (init delay scripts) as).hist).Sublist (puts (run (init delay scripts) as).hist) := by
+  have H := (reach_inv delay scripts as h).H
+  exact H.gots_sub_live.trans List.filter_sublist
+
+theorem removed_not_returned (delay : Nat) (scripts : List (List Op)) (as : List Action) (h : distinctPuts scripts)
+    (e : Elem) (hr : e ∈ removeds (run (init delay scripts) as).hist) :
+    e ∉ gots (run (init delay scripts) as).hist := by
+  have H := (reach_inv delay scripts as h).H
+  exact fun hg => not_removed_of_live (H.gots_sub_live.subset hg) hr
+
+theorem never_early (delay : Nat) (scripts : List (List Op)) (as : List Action) (h : distinctPuts scripts)
+    (tid tid' : Nat) (e : Elem) (t t0 : Nat)
+    (hg : Obs.got tid e t ∈ (run (init delay scripts) as).hist)
+    (hp : Obs.put tid' e true t0 ∈ (run (init delay scripts) as).hist) : t0 + delay ≤ t :=
+  (reach_inv delay scripts as h).H.ne _ _ _ _ _ hg hp
+
+theorem getLocked_closed (s : State) (tid : Nat) (t : Thread) (hc : s.closed = true) :
+    getLocked s tid t = arrive { s with hist := s.hist ++ [.gotNone tid s.clock] } tid t := by
+  unfold getLocked
+  split <;> simp [hc]
+
+theorem getLocked_imm (s : State) (tid : Nat) (t : Thread) (head : Entry) (rest : List Entry)
+    (hq : s.queue = head :: rest) (hnd : head.delayed = false) (hc : s.closed = false) :
+    getLocked s tid t = s.setThread tid { t with pc := .getPop head } := by
+  unfold getLocked
+  simp [hq, hc, hnd]
+
+theorem thread?_setThread_self (s : State) (tid : Nat) (t t' : Thread) (ht : s.thread? tid = some t) :
+    (s.setThread tid t').thread? tid = some t' := by
+  simp only [State.thread?, State.setThread] at *
+  have hlt : tid < s.threads.length := (List.getElem?_eq_some_iff.1 ht).1
+  simp [hlt]
+
+theorem pop_step (s : State) (tid : Nat) (t : Thread) (head : Entry) (rest : List Entry)
+    (ht : s.thread? tid = some t) (hpc : t.pc = .getPop head) (hq : s.queue = head :: rest) :
+    ∃ s2, step s tid = some s2 ∧ Obs.got tid head.elem s.clock ∈ s2.hist ∧ s2.queue = rest := by
+  have hen : enabled s tid = true := by simp [enabled, ht, hpc]
+  refine ⟨arrive { s with queue := rest, hist := s.hist ++ [.got tid head.elem s.clock] } tid t, ?_, ?_, ?_⟩
+  · simp [step, hen, ht, hpc, hq]
+  · rw [arrive_eq]; simp [State.setThread]
+  · rw [arrive_eq]; simp [State.setThread]
+
+theorem immediate (s : State) (tid : Nat) (t : Thread) (head : Entry) (rest : List Entry)
+    (ht : s.thread? tid = some t) (hpc : t.pc = .getAcq ∨ (t.pc = .getWait ∧ t.notified = true))
+    (hq : s.queue = head :: rest) (hnd : head.delayed = false) (hc : s.closed = false) :
+    ∃ s1, step s tid = some s1 ∧ s1.clock = s.clock ∧ s1.queue = s.queue ∧
+      (∃ t1, s1.thread? tid = some t1 ∧ t1.pc = .getPop head) ∧
+      ∃ s2, step s1 tid = some s2 ∧ Obs.got tid head.elem s.clock ∈ s2.hist ∧ s2.queue = rest := by
+  rcases hpc with hpc | ⟨hpc, hn⟩
+  · have hen : enabled s tid = true := by simp [enabled, ht, hpc]
+    refine ⟨s.setThread tid { t with pc := .getPop head }, ?_, rfl, rfl, ?_, ?_⟩
+    · simp [step, hen, ht, hpc, getLocked_imm s tid _ head rest hq hnd hc]
+    · exact ⟨_, thread?_setThread_self s tid t _ ht, rfl⟩
+    · exact pop_step _ tid _ head rest (thread?_setThread_self s tid t _ ht) rfl hq
+  · have hen : enabled s tid = true := by simp [enabled, ht, hpc, hn]
+    refine ⟨s.setThread tid { t with pc := .getPop head, notified := false }, ?_, rfl, rfl, ?_, ?_⟩
+    · simp [step, hen, ht, hpc, getLocked_imm s tid _ head rest hq hnd hc]
+    · exact ⟨_, thread?_setThread_self s tid t _ ht, rfl⟩
+    · exact pop_step _ tid _ head rest (thread?_setThread_self s tid t _ ht) rfl hq
+
+theorem closed_get_returns_none (s : State) (tid : Nat) (t : Thread)
+    (ht : s.thread? tid = some t) (hpc : t.pc = .getAcq ∨ (t.pc = .getWait ∧ t.notified = true))
+    (hc : s.closed = true) :
+    ∃ s1, step s tid = some s1 ∧ Obs.gotNone tid s.clock ∈ s1.hist := by
+  rcases hpc with hpc | ⟨hpc, hn⟩
+  · have hen : enabled s tid = true := by simp [enabled, ht, hpc]
+    refine ⟨getLocked s tid t, ?_, ?_⟩
+    · simp [step, hen, ht, hpc]
+    · rw [getLocked_closed _ _ _ hc, arrive_eq]; simp [State.setThread]
+  · have hen : enabled s tid = true := by simp [enabled, ht, hpc, hn]
+    refine ⟨getLocked s tid { t with notified := false }, ?_, ?_⟩
+    · simp [step, hen, ht, hpc]
+    · rw [getLocked_closed _ _ _ hc, arrive_eq]; simp [State.setThread]
+
+/-! ### waiters, single consumer and `close()` -/
+
+def getPc : Pc → Bool
+  | .getAcq => true
+  | .getWait => true
+  | .getSleep _ _ => true
+  | .getPop _ => true
+  | _ => false
+
+/-- the thread is inside `get()` or will still call it -/
+def getish (t : Thread) : Prop := getPc t.pc = true ∨ Op.get ∈ t.script
+
+theorem getish_arriveT {c : Nat} {t : Thread} (h : getish (arriveT c t)) : Op.get ∈ t.script := by
+  rcases t with ⟨pc, script, n⟩
+  cases script with
+  | nil => simp [arriveT, getish, getPc] at h
+  | cons op rest => cases op <;> simp_all [arriveT, getish, getPc]
+
+structure InvW (cl : Bool) (ws : List Nat) (ths : List Thread) (h : List Obs) : Prop where
+  wIff : ∀ i : Nat, i ∈ ws ↔ ∃ t, ths[i]? = some t ∧ t.pc = .getWait ∧ t.notified = false
+  wNodup : ws.Nodup
+  single : ∀ (i j : Nat) ti tj, ths[i]? = some ti → ths[j]? = some tj → getish ti → getish tj → i = j
+  closedHist : ∀ a c, Obs.closed a c ∈ h → cl = true ∧ ws = []
+  closeAcqOk : ∀ (i : Nat) t, ths[i]? = some t → t.pc = .closeAcq → cl = true
+
+theorem InvW.tail_nil {cl ws ths h} (I : InvW cl ws ths h) : ws.tail = [] := by
+  cases ws with
+  | nil => rfl
+  | cons a rest =>
+    cases rest with
+    | nil => rfl
+    | cons b rest' =>
+      exfalso
+      obtain ⟨ta, hta, hpa, _⟩ := (I.wIff a).1 (by simp)
+      obtain ⟨tb, htb, hpb, _⟩ := (I.wIff b).1 (by simp)
+      have hab : a = b := I.single a b ta tb hta htb (Or.inl (by simp [hpa, getPc])) (Or.inl (by simp [hpb, getPc]))
+      have := I.wNodup
+      simp [hab] at this
+
+theorem InvW.hist {cl ws ths h h'} (I : InvW cl ws ths h)
+    (hh : ∀ a c, Obs.closed a c ∈ h' → Obs.closed a c ∈ h) : InvW cl ws ths h' :=
+  ⟨I.wIff, I.wNodup, I.single, fun a c hc => I.closedHist a c (hh a c hc), I.closeAcqOk⟩
+
+theorem InvW.notify {cl ws ths h} (I : InvW cl ws ths h) : InvW cl ws.tail (notifyThreads ths ws) h := by
+  have hsingle : ∀ (i j : Nat) ti tj, (notifyThreads ths ws)[i]? = some ti → (notifyThreads ths ws)[j]? = some tj →
+      getish ti → getish tj → i = j := by
+    intro i j ti tj hi hj gi gj
+    obtain ⟨t0, h0, h1, h2, _⟩ := notifyThreads_cases hi
+    obtain ⟨t0', h0', h1', h2', _⟩ := notifyThreads_cases hj
+    exact I.single i j t0 t0' h0 h0' (by simpa [getish, h1, h2] using gi) (by simpa [getish, h1', h2'] using gj)
+  have hclose : ∀ (i : Nat) t, (notifyThreads ths ws)[i]? = some t → t.pc = .closeAcq → cl = true := by
+    intro i t hi hpc
+    obtain ⟨t0, h0, h1, _, _⟩ := notifyThreads_cases hi
+    exact I.closeAcqOk i t0 h0 (h1 ▸ hpc)
+  cases ws with
+  | nil => exact I
+  | cons w rest =>
+    have hnd := I.wNodup
+    simp only [List.nodup_cons] at hnd
+    refine ⟨?_, hnd.2, hsingle, ?_, hclose⟩
+    · intro i
+      simp only [List.tail_cons, notifyThreads_get, List.head?_cons, Option.some.injEq]
+      by_cases hwi : w = i
+      · subst hwi
+        constructor
+        · intro hin; exact absurd hin hnd.1
+        · rintro ⟨t, ht, _, hn⟩
+          cases h0 : ths[w]? with
+          | none => simp [h0] at ht
+          | some t0 => simp [h0] at ht; subst ht; simp at hn
+      · have := I.wIff i
+        simp only [List.mem_cons] at this
+        constructor
+        · intro hin
+          obtain ⟨t, ht, hp, hn⟩ := this.1 (Or.inr hin)
+          exact ⟨t, by simp [ht, hwi], hp, hn⟩
+        · rintro ⟨t, ht, hp, hn⟩
+          cases h0 : ths[i]? with
+          | none => simp [h0] at ht
+          | some t0 =>
+            simp [h0, hwi] at ht; subst ht
+            rcases this.2 ⟨t0, h0, hp, hn⟩ with h | h
+            · exact absurd h.symm hwi
+            · exact h
+    · intro a c hc
+      have := I.closedHist a c hc
+      simp at this
+
+theorem InvW.set {cl cl' ws ths h h' tid t t'} (I : InvW cl ws ths h) (ht : ths[tid]? = some t)
+    (hnw : t.pc = .getWait → t.notified = true) (hpc : t'.pc ≠ .getWait)
+    (hca : t'.pc = .closeAcq → cl' = true) (hg : getish t' → getish t) (hcl : cl = true → cl' = true)
+    (hh : ∀ a c, Obs.closed a c ∈ h' → Obs.closed a c ∈ h ∨ (cl' = true ∧ ws = [])) :
+    InvW cl' ws (ths.set tid t') h' := by
+  constructor
+  · intro i
+    rw [I.wIff i]
+    by_cases hi : i = tid
+    · subst hi
+      have hlt : i < ths.length := (List.getElem?_eq_some_iff.1 ht).1
+      constructor
+      · rintro ⟨t0, h0, hp, hn⟩
+        rw [ht] at h0; simp at h0; subst h0
+        rw [hnw hp] at hn; simp at hn
+      · rintro ⟨t0, h0, hp, hn⟩
+        simp [hlt] at h0; subst h0
+        exact absurd hp hpc
+    · have : (ths.set tid t')[i]? = ths[i]? := by
+        rw [List.getElem?_set]; simp [Ne.symm hi]
+      rw [this]
+  · exact I.wNodup
+  · intro i j ti tj hi hj gi gj
+    rcases get_set_cases hi with ⟨rfl, rfl⟩ | ⟨_, hi'⟩ <;>
+      rcases get_set_cases hj with ⟨rfl, rfl⟩ | ⟨_, hj'⟩
+    · rfl
+    · exact I.single _ _ _ _ ht hj' (hg gi) gj
+    · exact I.single _ _ _ _ hi' ht gi (hg gj)
+    · exact I.single _ _ _ _ hi' hj' gi gj
+  · intro a c hc
+    rcases hh a c hc with h1 | h1
+    · obtain ⟨h2, h3⟩ := I.closedHist a c h1
+      exact ⟨hcl h2, h3⟩
+    · exact h1
+  · intro i t0 hi hp
+    rcases get_set_cases hi with ⟨rfl, rfl⟩ | ⟨_, hi'⟩
+    · exact hca hp
+    · exact hcl (I.closeAcqOk i t0 hi' hp)
+
+theorem InvW.wait {cl ws ths h tid t t'} (I : InvW cl ws ths h) (hcl : cl = false) (ht : ths[tid]? = some t)
+    (hpc0 : t.pc = .getAcq ∨ (t.pc = .getWait ∧ t.notified = true))
+    (hpc : t'.pc = .getWait) (hn : t'.notified = false) :
+    InvW cl (ws ++ [tid]) (ths.set tid t') h := by
+  have hlt : tid < ths.length := (List.getElem?_eq_some_iff.1 ht).1
+  have hnin : tid ∉ ws := by
+    intro hin
+    obtain ⟨t0, h0, hp, hn0⟩ := (I.wIff tid).1 hin
+    rw [ht] at h0; simp at h0; subst h0
+    rcases hpc0 with h1 | ⟨_, h1⟩
+    · rw [h1] at hp; cases hp
+    · rw [h1] at hn0; cases hn0
+  have hgt : getish t := by
+    rcases hpc0 with h1 | ⟨h1, _⟩ <;> exact Or.inl (by simp [h1, getPc])
+  constructor
+  · intro i
+    by_cases hi : i = tid
+    · subst hi
+      simp only [List.mem_append, List.mem_singleton, or_true, true_iff]
+      exact ⟨t', by simp [hlt], hpc, hn⟩
+    · have : (ths.set tid t')[i]? = ths[i]? := by
+        rw [List.getElem?_set]; simp [Ne.symm hi]
+      rw [this, ← I.wIff i]
+      simp [hi]
+  · refine List.nodup_append.2 ⟨I.wNodup, by simp, ?_⟩
+    intro a ha b hb
+    simp at hb; subst hb
+    exact fun hab => hnin (hab ▸ ha)
+  · intro i j ti tj hi hj gi gj
+    rcases get_set_cases hi with ⟨rfl, rfl⟩ | ⟨_, hi'⟩ <;>
+      rcases get_set_cases hj with ⟨rfl, rfl⟩ | ⟨_, hj'⟩
+    · rfl
+    · exact I.single _ _ _ _ ht hj' hgt gj
+    · exact I.single _ _ _ _ hi' ht gi hgt
+    · exact I.single _ _ _ _ hi' hj' gi gj
+  · intro a c hc
+    have := (I.closedHist a c hc).1
+    rw [hcl] at this; cases this
+  · intro i t0 hi hp
+    rcases get_set_cases hi with ⟨rfl, rfl⟩ | ⟨_, hi'⟩
+    · rw [hpc] at hp; cases hp
+    · exact I.closeAcqOk i t0 hi' hp
+
+abbrev SW (s : State) : Prop := InvW s.closed s.waiters s.threads s.hist
+
+theorem getLocked_invW {s tid t t0} (I : SW s) (ht : s.threads[tid]? = some t0)
+    (hpc0 : t0.pc = .getAcq ∨ (t0.pc = .getWait ∧ t0.notified = true)) :
+    SW (getLocked s tid t) := by
+  have hgt : getish t0 := by
+    rcases hpc0 with h1 | ⟨h1, _⟩ <;> exact Or.inl (by simp [h1, getPc])
+  have hnw : t0.pc = .getWait → t0.notified = true := by
+    rcases hpc0 with h1 | ⟨_, h1⟩
+    · intro hh; rw [h1] at hh; cases hh
+    · exact fun _ => h1
+  have hclosed : SW (arrive { s with hist := s.hist ++ [.gotNone tid s.clock] } tid t) := by
+    simp only [arrive_eq, State.setThread, SW]
+    refine InvW.set I ht hnw (arriveT_pc _ _).2.2.1 ?_ (fun _ => hgt) id ?_
+    · intro hh; exact absurd hh (arriveT_pc _ _).2.2.2
+    · intro a c hc; simp at hc; exact Or.inl hc
+  have hmove : ∀ pc, pc ≠ Pc.getWait → pc ≠ Pc.closeAcq →
+      SW (s.setThread tid { t with pc := pc }) := by
+    intro pc hp1 hp2
+    simp only [State.setThread, SW]
+    exact InvW.set I ht hnw hp1 (fun hh => absurd hh hp2) (fun _ => hgt) id (fun a c hc => Or.inl hc)
+  unfold getLocked
+  split
+  · split
+    · exact hclosed
+    · rename_i hc
+      simp only [State.setThread, SW]
+      exact InvW.wait I (by simpa using hc) ht hpc0 rfl rfl
+  · split
+    · exact hclosed
+    · split
+      · exact hmove _ (by simp) (by simp)
+      · exact hmove _ (by simp) (by simp)
+
+theorem step_invW {s tid s'} (I : SW s) (hs : step s tid = some s') : SW s' := by
+  unfold step at hs
+  split at hs
+  · simp at hs
+  rename_i hen
+  split at hs
+  · simp at hs
+  rename_i t ht
+  simp only [State.thread?] at ht
+  have hnw : t.pc = .getWait → t.notified = true := by
+    intro hpc; simp [enabled, State.thread?, ht, hpc] at hen; exact hen
+  have harr : ∀ (s0 : State), s0.closed = s.closed → s0.waiters = s.waiters → s0.threads = s.threads →
+      (∀ a c, Obs.closed a c ∈ s0.hist → Obs.closed a c ∈ s.hist) → SW (arrive s0 tid t) := by
+    intro s0 h1 h2 h3 h4
+    simp only [arrive_eq, State.setThread, SW, h1, h2, h3]
+    refine InvW.set I ht hnw (arriveT_pc _ _).2.2.1 ?_ (fun g => Or.inr (getish_arriveT g)) id ?_
+    · intro hh; exact absurd hh (arriveT_pc _ _).2.2.2
+    · intro a c hc; exact Or.inl (h4 a c hc)
+  have hmove : ∀ pc, getPc t.pc = true → pc ≠ Pc.getWait → pc ≠ Pc.closeAcq →
+      SW (s.setThread tid { t with pc := pc }) := by
+    intro pc hg hp1 hp2
+    simp only [State.setThread, SW]
+    exact InvW.set I ht hnw hp1 (fun hh => absurd hh hp2) (fun _ => Or.inl hg) id (fun a c hc => Or.inl hc)
+  split at hs
+  all_goals (try (simp only [Option.some.injEq] at hs; subst hs))
+  · -- begin
+    exact harr s rfl rfl rfl (fun _ _ h => h)
+  · -- putAcq
+    rename_i e d hpc
+    simp only [arrive_eq, notifyOne_eq, State.setThread, SW]
+    obtain ⟨t1, h1, h2, h3⟩ := notifyThreads_get_some s.waiters ht
+    have I1 : InvW s.closed s.waiters.tail (notifyThreads s.threads s.waiters)
+        (s.hist ++ [.put tid e d s.clock]) :=
+      (InvW.notify I).hist (by intro a c hc; simpa using hc)
+    refine InvW.set I1 h1 ?_ (arriveT_pc _ _).2.2.1 ?_ ?_ id (fun a c hc => Or.inl hc)
+    · intro hh; rw [h2, hpc] at hh; cases hh
+    · intro hh; exact absurd hh (arriveT_pc _ _).2.2.2
+    · intro g; exact Or.inr (h3 ▸ getish_arriveT g)
+  · -- getAcq
+    rename_i hpc
+    exact getLocked_invW I ht (Or.inl hpc)
+  · -- getWait
+    rename_i hpc
+    exact getLocked_invW I ht (Or.inr ⟨hpc, hnw hpc⟩)
+  · -- getSleep
+    rename_i head dl hpc
+    exact hmove _ (by simp [hpc, getPc]) (by simp) (by simp)
+  · -- getPop
+    rename_i head hpc
+    split at hs
+    · split at hs
+      · simp only [Option.some.injEq] at hs; subst hs
+        exact harr _ rfl rfl rfl (by intro a c hc; simpa using hc)
+      · simp only [Option.some.injEq] at hs; subst hs
+        exact hmove _ (by simp [hpc, getPc]) (by simp) (by simp)
+    · simp only [Option.some.injEq] at hs; subst hs
+      exact hmove _ (by simp [hpc, getPc]) (by simp) (by simp)
+  · -- remAcq
+    split at hs
+    · simp only [Option.some.injEq] at hs; subst hs
+      exact harr _ rfl rfl rfl (by intro a c hc; simpa using hc)
+    · simp only [Option.some.injEq] at hs; subst hs
+      exact harr _ rfl rfl rfl (by intro a c hc; simpa using hc)
+  · -- closeFlag
+    rename_i hpc
+    simp only [State.setThread, SW]
+    refine InvW.set I ht hnw (by simp) (fun _ => rfl) ?_ (fun _ => rfl) (fun a c hc => Or.inl hc)
+    intro g
+    simp [getish, getPc] at g
+    exact Or.inr g
+  · -- closeAcq
+    rename_i hpc
+    simp only [arrive_eq, notifyOne_eq, State.setThread, SW]
+    obtain ⟨t1, h1, h2, h3⟩ := notifyThreads_get_some s.waiters ht
+    have hcl : s.closed = true := I.closeAcqOk tid t ht hpc
+    refine InvW.set (InvW.notify I) h1 ?_ (arriveT_pc _ _).2.2.1 ?_ ?_ id ?_
+    · intro hh; rw [h2, hpc] at hh; cases hh
+    · intro hh; exact absurd hh (arriveT_pc _ _).2.2.2
+    · intro g; exact Or.inr (h3 ▸ getish_arriveT g)
+    · intro a c hc
+      simp only [List.mem_append, List.mem_singleton] at hc
+      rcases hc with hc | _
+      · exact Or.inl hc
+      · exact Or.inr ⟨hcl, I.tail_nil⟩
+  · -- sleeping
+    exact harr s rfl rfl rfl (fun _ _ h => h)
+  · simp at hs
+
+theorem act_invW {s} (I : SW s) (a : Action) : SW (act s a) := by
+  cases a with
+  | step tid =>
+    simp only [act]
+    cases hs : step s tid with
+    | none => exact I
+    | some s' => exact step_invW I hs
+  | tick d => exact I
+
+theorem run_invW {s} (I : SW s) (as : List Action) : SW (run s as) := by
+  induction as generalizing s with
+  | nil => exact I
+  | cons a as ih => exact ih (act_invW I a)
+
+theorem filter_le_one {α} (p : α → Bool) (l : List α) (h : (l.filter p).length ≤ 1) (i j : Nat) (a b : α)
+    (hi : l[i]? = some a) (hj : l[j]? = some b) (pa : p a = true) (pb : p b = true) : i = j := by
+  induction l generalizing i j with
+  | nil => simp at hi
+  | cons x l ih =>
+    have hmem : ∀ (k : Nat) (y : α), l[k]? = some y → p y = true → p x = true → False := by
+      intro k y hk py px
+      simp [px] at h
+      have := h y (List.mem_of_getElem? hk)
+      rw [py] at this; cases this
+    have hle : (l.filter p).length ≤ 1 := by
+      rw [List.filter_cons] at h
+      split at h
+      · simp only [List.length_cons] at h; omega
+      · exact h
+    cases i <;> cases j
+    · rfl
+    · simp at hi hj; subst hi; exact (hmem _ _ hj pb pa).elim
+    · simp at hi hj; subst hj; exact (hmem _ _ hi pa pb).elim
+    · simp at hi hj; rw [ih hle _ _ hi hj]
+
+theorem init_invW (delay : Nat) (scripts : List (List Op)) (h : singleConsumer scripts) :
+    SW (init delay scripts) := by
+  have hget : ∀ (i : Nat) t, (init delay scripts).threads[i]? = some t →
+      ∃ sc, scripts[i]? = some sc ∧ t = { pc := .begin, script := sc } := by
+    intro i t hi
+    simp only [init, List.getElem?_map] at hi
+    cases hsc : scripts[i]? with
+    | none => simp [hsc] at hi
+    | some sc => simp [hsc] at hi; exact ⟨sc, rfl, hi.symm⟩
+  constructor
+  · intro i
+    constructor
+    · intro hin; simp [init] at hin
+    · rintro ⟨t, ht, hp, _⟩
+      obtain ⟨sc, _, rfl⟩ := hget i t ht
+      cases hp
+  · simp [init]
+  · intro i j ti tj hi hj gi gj
+    obtain ⟨sci, hsci, rfl⟩ := hget i ti hi
+    obtain ⟨scj, hscj, rfl⟩ := hget j tj hj
+    simp [getish, getPc] at gi gj
+    exact filter_le_one hasGet scripts h i j sci scj hsci hscj (by simp [hasGet, gi]) (by simp [hasGet, gj])
+  · intro a c hc; simp [init] at hc
+  · intro i t hi hp
+    obtain ⟨sc, _, rfl⟩ := hget i t hi
+    cases hp
+
+theorem close_unblocks (delay : Nat) (scripts : List (List Op)) (as : List Action) (h : singleConsumer scripts)
+    (ctid t0 : Nat) (hc : Obs.closed ctid t0 ∈ (run (init delay scripts) as).hist) (tid : Nat) (t : Thread)
+    (ht : (run (init delay scripts) as).thread? tid = some t) (hw : t.pc = .getWait) : t.notified = true := by
+  have I : SW (run (init delay scripts) as) := run_invW (init_invW delay scripts h) as
+  have hws := (I.closedHist ctid t0 hc).2
+  cases hn : t.notified with
+  | true => rfl
+  | false =>
+    have : tid ∈ (run (init delay scripts) as).waiters := (I.wIff tid).2 ⟨t, ht, hw, hn⟩
+    rw [hws] at this
+    simp at this
+
+end WD.ProofsDQ
